@@ -728,6 +728,10 @@ class Interp(seqdom.Interp):
                         isinstance(a_, I) and isinstance(b_, I) and a_.p == b_.p for a_, b_ in zip(own.items, shp.items)):
                     return base
                 return Mat(base.rows, base.cols, ("opq", f"`{astq.src(node, 50)}` reshapes a typed block"), base.lay)
+        if fn == "len" and len(args) == 1 and isinstance(args[0], (Rec, Mat)):
+            own = self.attr_hook(args[0], "shape", node)          # len(array) = array.shape[0]
+            if isinstance(own, Tup) and own.items:
+                return own.items[0]
         if fn == "len" and args and isinstance(args[0], Setups):
             return I(P.s("N") - args[0].lo)
         if fn == "len" and args and isinstance(args[0], Sq):
